@@ -93,7 +93,7 @@ def runSteps : T → List J → Option (List J)
     let recv ← (s.get? "recv").bind pathOfJ
     let notify := (s.getBool? "notify").getD true
     let op ← (s.get? "call").bind opOfJ
-    let out := step genResetOnSkip t recv notify op
+    let out := step t recv notify op
     let r := readAll [] out.tree
     let reads := r.2.2.filter (fun (p, _) => match getAt out.tree p with
       | some n => objFree n
